@@ -462,6 +462,22 @@ func runCase(run *report.Run, w *world.World, c caseSpec, scratch, intPEM, other
 			}
 			<-done
 			run.Count("listed_probes_during_refresh", int64(during))
+			// a refresh that is refused (the served copy has a damaged signature) leaves the list in force
+			if c.Source != "crl_files" {
+				bad := append([]byte(nil), built.DER...)
+				bad[len(bad)-1] ^= 1
+				w.CRL.Set(path, origin.Good(encode(bad, c.Enc)))
+				crlChk.VerifUpdateCRLs(true)
+				for _, ch := range chains {
+					run.Eval(1)
+					if v.Verify(ch) == nil {
+						run.Violation(fmt.Sprintf("listed-accepted-after-refused-refresh.%s.%s", c.Source, c.Storage), fmt.Sprintf("listed serial %s accepted after a refresh that had to be refused (bad signature) | %s", ch[0].SerialNumber, c.desc()), rp(map[string]any{"serial": ch[0].SerialNumber.String()}))
+						break
+					}
+					run.Count("listed_probes_after_refused_refresh", 1)
+				}
+				w.CRL.Set(path, origin.Good(data))
+			}
 		}
 	}
 	if c.ID%40 == 0 {
